@@ -10,15 +10,13 @@ import OpcuaModel.Gen.RefTypes
 
   `SpecMatch` is the property's filter (direction, reference type equal or —
   only when subtypes are requested — a transitive subtype, class of the target
-  node in the mask).  After the repair of `suitableRefType` (the subtypes are no
-  longer consulted at all when IncludeSubtypes is false; the deletion loop that
-  ran out of the slice is gone) the code satisfies it for EVERY request
-  (`C33_filter`), under two hypotheses about the address space: the HasSubtype
-  forest is acyclic (proved for the regenerated standard hierarchy) and every
-  reference carries the class of its target node.  The second one is violated by
-  the unchanged code in places — the class mask is applied to the class recorded
-  in the reference — which stays a recorded finding
-  (`C33_finding_stale_class`).
+  node in the mask).  After the repairs of `suitableRefType` (the subtypes are not
+  consulted when IncludeSubtypes is false; the deletion loop that ran out of the
+  slice is gone) and of the class mask (`suitableRef` looks at the class the
+  target node has now, not at the class recorded in the reference) the code
+  satisfies it for EVERY request on EVERY node whose references are well formed
+  (`C33_filter`); the only hypothesis left is that the HasSubtype forest is
+  acyclic, which is proved for the regenerated standard hierarchy.
 -/
 namespace Opcua.Props.C33
 open Opcua.Browse
@@ -53,14 +51,14 @@ theorem C33_std_fuel : ∀ t, lookupRank Gen.refTypeRank t < Gen.refTypeFuel := 
 /-- the constants of the model are the ones of the source -/
 theorem C33_ids : hasSubtype = Gen.hasSubtypeId ∧ hasTypeDefinition = Gen.hasTypeDefinitionId := by decide
 
-/-- MAIN: on an acyclic forest, for a node whose references are well formed and
-    carry the class of their target, and EVERY request (any direction value,
+/-- MAIN: on an acyclic forest, for a node whose references are well formed,
+    and EVERY request (any direction value,
     reference type, subtype flag and class mask): Browse returns, up to order,
     exactly the references the specification selects — no more, no fewer, with
     multiplicity -/
 theorem C33_filter (g : Graph) (rank : Nat → Nat) (hr : RankOK g rank) (fuel : Nat) (d : Desc)
     (hf : rank d.refType < fuel) (refs : List Ref)
-    (hwf : ∀ r ∈ refs, r.nilField = false ∧ r.storedClass = r.targetClass) :
+    (hwf : ∀ r ∈ refs, r.nilField = false) :
     (browse g fuel d refs).Perm (refs.filter (specMatchB g fuel d)) ∧
       (∀ r, specMatchB g fuel d r = true ↔ SpecMatch g d r) ∧
       (∀ r, r ∈ browse g fuel d refs ↔ r ∈ refs ∧ SpecMatch g d r) := by
@@ -74,7 +72,7 @@ theorem C33_filter (g : Graph) (rank : Nat → Nat) (hr : RankOK g rank) (fuel :
 
 /-- the same for the regenerated standard hierarchy, with the driver's fuel -/
 theorem C33_filter_std (d : Desc) (refs : List Ref)
-    (hwf : ∀ r ∈ refs, r.nilField = false ∧ r.storedClass = r.targetClass) :
+    (hwf : ∀ r ∈ refs, r.nilField = false) :
     ∀ r, r ∈ browse Gen.refTypeSubs Gen.refTypeFuel d refs ↔ r ∈ refs ∧ SpecMatch Gen.refTypeSubs d r :=
   (C33_filter Gen.refTypeSubs _ C33_std_acyclic Gen.refTypeFuel d (C33_std_fuel d.refType) refs hwf).2.2
 
@@ -110,17 +108,20 @@ theorem C33_repaired_no_panic :
     suitableRefType Gen.refTypeSubs Gen.refTypeFuel 31 35 false = false ∧
     suitableRefType Gen.refTypeSubs Gen.refTypeFuel 34 47 false = false ∧
     browse Gen.refTypeSubs Gen.refTypeFuel ⟨0, 33, false, 0⟩
-      [⟨40, true, 61, 8, 8, false⟩, ⟨35, true, 2253, 1, 1, false⟩] = [] := by
+      [⟨40, true, 61, 8, 8, true, false⟩, ⟨35, true, 2253, 1, 1, true, false⟩] = [] := by
   decide +kernel
 
-/-- FINDING C33.nodeclass-mask-uses-stale-class — the mask is applied to the class
-    stored in the reference: a reference recorded as Variable (2) whose target
-    node now says Object (1) is dropped by mask=Object and returned by mask=Variable -/
-theorem C33_finding_stale_class :
-    let r : Ref := ⟨47, true, 2255, 2, 1, false⟩
-    browse [] 1 ⟨0, 0, true, 1⟩ [r] = [] ∧ SpecMatch [] ⟨0, 0, true, 1⟩ r ∧
-    browse [] 1 ⟨0, 0, true, 2⟩ [r] = [r] ∧ ¬ SpecMatch [] ⟨0, 0, true, 2⟩ r := by
-  refine ⟨by decide, ?_, by decide, ?_⟩ <;> simp [SpecMatch, suitableDirection]
+/-- REPAIRED (was C33.nodeclass-mask-uses-stale-class): a reference recorded as
+    Variable (2) whose target node now says Object (1) is returned by mask=Object and
+    dropped by mask=Variable, as the specification says; for a target outside the
+    address space the recorded class is all there is -/
+theorem C33_repaired_class_mask :
+    let r : Ref := ⟨47, true, 2255, 2, 1, true, false⟩
+    let x : Ref := ⟨47, true, 9999, 2, 0, false, false⟩
+    browse [] 1 ⟨0, 0, true, 1⟩ [r] = [r] ∧ SpecMatch [] ⟨0, 0, true, 1⟩ r ∧
+    browse [] 1 ⟨0, 0, true, 2⟩ [r] = [] ∧ ¬ SpecMatch [] ⟨0, 0, true, 2⟩ r ∧
+    browse [] 1 ⟨0, 0, true, 2⟩ [x] = [x] := by
+  refine ⟨by decide, ?_, by decide, ?_, by decide⟩ <;> simp [SpecMatch, suitableDirection, Ref.cls]
 
 /-- non-vacuity: with subtypes, HierarchicalReferences selects Organizes and
     HasComponent but not HasTypeDefinition -/
